@@ -344,7 +344,9 @@ func (c *Ctx) checkOtherUserGuards() {
 		ok3, c3 := core.GuardedBy(sink.Parent(), sink, core.BoolGuard("!isReadOnly", core.IsCallTo(readonly), false))
 		r.Check(ok3 && c3[0] > 0, "C07.2-other-user-guards", construct+" / topic not read-only", c.pos(sink), "", "subscriptions of a suspended topic can be changed")
 		if asChan != nil {
-			ok4, c4 := core.GuardedBy(sink.Parent(), sink, core.BoolGuard("!asChan", func(v ssa.Value) bool { return core.Strip(v) == ssa.Value(asChan) || c.rootValue(v) == c.rootValue(asChan) }, false))
+			ok4, c4 := core.GuardedBy(sink.Parent(), sink, core.BoolGuard("!asChan", func(v ssa.Value) bool {
+				return core.Strip(v) == ssa.Value(asChan) || c.rootValue(v) == c.rootValue(asChan)
+			}, false))
 			r.Check(ok4 && c4[0] > 0, "C07.2-other-user-guards", construct+" / not addressed as channel", c.pos(sink), "", "channel addressing can be used to change another user's subscription")
 		}
 	}
@@ -622,7 +624,9 @@ func (c *Ctx) checkSubscriberLimit() {
 				core.EqGuard("cat!=Grp", core.IsFieldLoad(catF), core.IsConstOf(grp), false),
 			}
 			if asChan != nil {
-				gs = append(gs, core.BoolGuard("asChan", func(v ssa.Value) bool { return core.Strip(v) == ssa.Value(asChan) || c.rootValue(v) == c.rootValue(asChan) }, true))
+				gs = append(gs, core.BoolGuard("asChan", func(v ssa.Value) bool {
+					return core.Strip(v) == ssa.Value(asChan) || c.rootValue(v) == c.rootValue(asChan)
+				}, true))
 			}
 			ok, cnt := core.GuardedBy(ci.Parent(), ci.(ssa.Instruction), gs...)
 			r.Check(ok && cnt[0] > 0, "C07.6-subscriber-limit", fk(fn)+": Subs.Create", c.pos(ci), "group subscriptions are created only below the configured limit", "a group can get more subscribers than globals.maxSubscriberCount")
